@@ -908,6 +908,14 @@ func (r *Raft) ApplyLog(log Log, timeout time.Duration) ApplyFuture {
 	}
 	logFuture.init()
 
+	// Prefer the shutdown: applyCh may be buffered, and after a shutdown
+	// nobody reads it any more.
+	select {
+	case <-r.shutdownCh:
+		return errorFuture{ErrRaftShutdown}
+	default:
+	}
+
 	select {
 	case <-timer:
 		return errorFuture{ErrEnqueueTimeout}
@@ -934,6 +942,14 @@ func (r *Raft) Barrier(timeout time.Duration) Future {
 	logFuture := &logFuture{log: Log{Type: LogBarrier}}
 	logFuture.init()
 
+	// Prefer the shutdown: applyCh may be buffered, and after a shutdown
+	// nobody reads it any more.
+	select {
+	case <-r.shutdownCh:
+		return errorFuture{ErrRaftShutdown}
+	default:
+	}
+
 	select {
 	case <-timer:
 		return errorFuture{ErrEnqueueTimeout}
@@ -951,6 +967,9 @@ func (r *Raft) VerifyLeader() Future {
 	metrics.IncrCounter([]string{"raft", "verify_leader"}, 1)
 	verifyFuture := &verifyFuture{}
 	verifyFuture.init()
+	// verifyCh is buffered: the request can be accepted after, or sit in the
+	// channel during, a shutdown.
+	verifyFuture.ShutdownCh = r.shutdownCh
 	select {
 	case <-r.shutdownCh:
 		return errorFuture{ErrRaftShutdown}
